@@ -46,7 +46,9 @@ func c18Refusals(c *ctx) {
 			ilNum = core.Strip(ret.Results[0])
 		}
 	}
-	isIL := func(t *T) bool { return ilNum != nil && t.V == ilNum || (ilNum != nil && t.Key() == core.TermOf(ilNum).Key()) }
+	isIL := func(t *T) bool {
+		return ilNum != nil && t.V == ilNum || (ilNum != nil && t.Key() == core.TermOf(ilNum).Key())
+	}
 	curveN := func(t *T) bool {
 		return core.IsCurveOrder(t) && strings.Contains(t.Key(), core.TermOf(fn.Params[2]).Key())
 	}
